@@ -51,7 +51,7 @@ PROPS = {
     ),
     'C08': dict(
         harness='brokertrace', syn=True, args=['-prop', 'C08'], shards=dict(quick=8, thorough=16),
-        rule='offline-queue scripts (queue 3/5/100, window 1-4, loss during resend) and random subscriber behaviours (ack, withhold, drop, reconnect clean/unclean, failing sends); distinct = distinct traces',
+        rule='offline-queue scripts (queue 3/5/100, window 1-4, loss during resend) and random subscriber behaviours (ack, withhold, drop, reconnect clean/unclean, failing sends); once per run (shard 0) a packet-id wrap-around: window 2, the first delivery never acknowledged, 65535 further QoS 1 deliveries each acknowledged at once, drop, unclean resume (about 460000 model-checked lines); distinct = distinct traces',
         assumptions=['scripted peers at quiescence granularity inside a testing/synctest bubble (go1.26): one stimulus, then every goroutine of the broker durably blocked, then the next',
                      'not modelled: a publish blocking on the full queue of another online client, a processor blocked on an exhausted publish/subscribe token (the generators stay inside; the model answers unsupported otherwise)'],
     ),
